@@ -207,7 +207,7 @@ func buildHarness(race bool) string {
 	if err != nil {
 		die(2, "instrumentation failed: %v\n%s", err, out)
 	}
-	args := []string{"test", "-c", "-trimpath", "-o", filepath.Join(scratch, "simcheck.test")}
+	args := []string{"test", "-c", "-trimpath", "-tags", "verif", "-o", filepath.Join(scratch, "simcheck.test")}
 	if race {
 		args = append(args, "-race")
 	}
